@@ -491,6 +491,8 @@ def ddmin(src, still_fails, max_tests=400):
 
 def crash_class(loc):
     """Stable name of a crash site: file:line without the column."""
+    if loc.strip().startswith("timeout"):
+        return "hang"
     m = re.match(r"([^:\s]+):(\d+)", loc.strip())
     return "%s:%s" % (m.group(1), m.group(2)) if m else re.sub(r"\s+", "_", loc.strip())[:60]
 
@@ -505,8 +507,8 @@ def report_crash(ctx, exe, src, how, loc):
     cli = cli_crash(exe, small)
     if cli:
         cmd, loc2 = cli
-        ctx.violation("C01:crash:%s" % crash_class(loc2),
-                      "`garden %s` crashes (%s) on %r" % (cmd, loc2, small),
+        ctx.violation("C01:%s:%s" % ("hang" if crash_class(loc2) == "hang" else "crash", cmd if crash_class(loc2) == "hang" else crash_class(loc2)),
+                      "`garden %s` crashes or hangs (%s) on %r" % (cmd, loc2, small),
                       {"input": small, "shrunk_from": src, "observed": "panicked at " + loc2, "expected": "diagnostics, exit status != 101",
                        "cli_command": "garden %s <file containing input>" % cmd})
     else:
